@@ -49,6 +49,15 @@ def call_builtin(ip, f, args, kwargs):
             kind = type(e).__name__
             raise PyRaise(kind if kind in V.EXC else "Exception", msg=str(e))
 
+    if name == "get" and isinstance(getattr(f, "__self__", None), dict) and args and isinstance(args[0], C):
+        # constant_dict.get(constant_key, default) with a default that is not a constant
+        d = f.__self__
+        try:
+            if args[0].v in d:
+                return ip.wrap(d[args[0].v])
+        except TypeError:
+            raise PyRaise("TypeError", msg="unhashable key")
+        return args[1] if len(args) > 1 else C(None)
     if name == "join" and isinstance(getattr(f, "__self__", None), str) and len(args) == 1:
         # sep.join(<symbolic sequence>): an uninterpreted string; TypeError unless every item is a str (decided pointwise
         # for a comprehension whose element expression is a string, otherwise left open)
